@@ -50,7 +50,12 @@ def step (s : DSt) (line : String) : DSt × String :=
       match alookup s.wins h with
       | none => (s, "bad-op")
       | some w =>
-        let d := crashDisk w j
+        -- `prefix=`: what the dying process had actually written of this commit (its transactions need
+        -- not be the reference run's: one application batch more or less)
+        let d := if g "prefix" == "" then crashDisk w j
+                 else
+                   let done := classify 0 (if g "prefix" == "-" then [] else (g "prefix").splitOn ",")
+                   crashDisk done (done.length + 1)
         let pre := "pre=" ++ off d.store ++ "," ++ off d.state ++ "," ++ off d.app
         -- a second crash during recovery: the harness reports what was durable then
         let d2 : Disk :=
